@@ -19,6 +19,7 @@ func checkC08(p *Prog, r *Report) {
 	r.rule("R5 parameter names: every parameter name URL.String can emit (constants percent-decoded at analysis time: fields[*], filter, page[number], page[size], sort) is accepted by a case of NewSimpleURL (exact names and prefix/suffix pairs read off its conditions); the bracket content is cut with offsets equal to the lengths of that prefix and suffix; the page keys read by String are the ones it emits; Filter and its decoding twin filter carry the same json tags")
 	r.rule("C08.all-items: in each loop of URL.String that emits list items, no path round the loop leaves the accumulator unchanged (nothing selected is skipped)")
 	r.rule("C08.emission-guards: no parameter is emitted conditionally on the dynamic type of a value (no type-assertion outcome among the branch conditions that dominate an emission); page values are printed with fmt.Sprint of the stored value")
+	r.rule("C08.fields-accepted: String() prints a fields[T] parameter for every key of Params.Fields, whichever way the key got there, and does not print include; so NewParams may reject a fields[T] entry only for reasons computed from T, its name list, the schema and what this very iteration stored - never from state left by other parameters (every condition that dominates a rejecting return inside the loop over the parsed field selections is checked for its inputs)")
 	r.rule("C08.separator-trim: a trailing-separator trim x[:len(x)-k] after a loop is sound for zero iterations - the loop's source is known non-empty there, or the initial text has exactly k characters")
 	r.rule("R7 canonical order (shared with C11): the map of field selections is collected, sorted and emitted in sorted order, each name list is sorted before emission; R7 reader: in NewSimpleURL's loop over the query map every write goes to an entry keyed by the current name, happens under an exact name test (at most one iteration), or is a lazy initialisation, and the loop is left early only with an error")
 	r.assume("net/url: QueryEscape/PathEscape are inverted by Query()/Path parsing; fmt.Sprint of the int and string page values NewSimpleURL stores prints what strconv.Atoi / the raw value read (contract)")
@@ -42,6 +43,7 @@ func checkC08(p *Prog, r *Report) {
 	_, nUn, nSorts := oa.checkFunction(f)
 	r.floor("unordered loops in URL.String", nUn, 3)
 	r.floor("sorts in URL.String", nSorts, 2)
+	checkC08FieldsAccepted(p, r)
 	oa2 := &orderAnalysis{p: p, r: r, tainted: map[*ssa.Function]bool{}, allowErrExit: true, mapsOnly: true, rule: "R7.order-insensitive-reader"}
 	_, nUn2, _ := oa2.checkFunction(ns)
 	r.floor("map loops in NewSimpleURL", nUn2, 1)
@@ -383,13 +385,34 @@ func checkC08Names(p *Prog, r *Report, f, ns *ssa.Function) []emission {
 			}
 		}
 	})
+	// minimum-length guards: len(name) > K under a prefix test
+	minLen := map[string]int64{}
+	eachInstr(ns, func(ins ssa.Instruction) {
+		bo, ok := ins.(*ssa.BinOp)
+		if !ok || bo.Op != token.GTR {
+			return
+		}
+		c, _ := callOf(bo.X)
+		k, isC := constInt(bo.Y)
+		if c == nil || !isC || builtinName(c.Common()) != "len" || c.Common().Args[0] != nameVar {
+			return
+		}
+		for pre, call := range prefixes {
+			pc := call
+			if bo.Block() == pc.Block() || mustPassEdge(ns, bo.Block(), func(cond ssa.Value, truth bool) bool { return cond == ssa.Value(pc) && truth }) {
+				if k > minLen[pre] {
+					minLen[pre] = k
+				}
+			}
+		}
+	})
 	accepted := func(name string) bool {
 		if exact[name] {
 			return true
 		}
 		for pre := range prefixes {
 			for suf := range suffixes {
-				if strings.HasPrefix(name, pre) && strings.HasSuffix(name, suf) && len(name) > len(pre)+len(suf) {
+				if strings.HasPrefix(name, pre) && strings.HasSuffix(name, suf) && len(name) > len(pre)+len(suf) && int64(len(name)) > minLen[pre] {
 					return true
 				}
 			}
@@ -453,7 +476,7 @@ func checkC08Names(p *Prog, r *Report, f, ns *ssa.Function) []emission {
 	})
 	sort.Slice(ems, func(i, j int) bool { return ems[i].call.Pos() < ems[j].call.Pos() })
 	for _, e := range ems {
-		concrete := strings.ReplaceAll(e.name, "*", "xy")
+		concrete := strings.ReplaceAll(e.name, "*", "x") // the shortest name: one character
 		r.decide(accepted(concrete), "R5.param-names", "String:emits:"+e.name, p.pos(e.call.Pos()), "accepted by a case of NewSimpleURL", "URL.String emits the parameter "+e.name+", which no case of NewSimpleURL accepts: its own output does not parse")
 	}
 	r.floor("parameters URL.String can emit", len(ems), 6)
@@ -734,4 +757,151 @@ func leftmostConstWhole(phi *ssa.Phi, ld *loopDesc) (*string, bool) {
 		}
 	}
 	return nil, false
+}
+
+// checkC08FieldsAccepted: see the rule text.
+func checkC08FieldsAccepted(p *Prog, r *Report) {
+	np := p.Fn("NewParams")
+	if np == nil {
+		r.fail("anchor NewParams not found")
+		return
+	}
+	r.fn(funcName(np))
+	n := 0
+	for _, ld := range findLoops(np) {
+		if ld.kind != "map" {
+			continue
+		}
+		if _, fl, ok := fieldLoad(ld.src); !ok || fl != "Fields" || !strings.HasSuffix(typeStr(ld.src.Type()), "map[string][]string") {
+			continue
+		}
+		base, _, _ := fieldLoad(ld.src)
+		if !strings.HasSuffix(typeStr(deref(base.Type())), "SimpleURL") {
+			continue
+		}
+		// the region: the loop and the tails of its early exits
+		region := map[*ssa.BasicBlock]bool{}
+		for b := range ld.blocks {
+			region[b] = true
+		}
+		var grow func(b *ssa.BasicBlock)
+		grow = func(b *ssa.BasicBlock) {
+			if region[b] || len(b.Preds) != 1 {
+				return
+			}
+			region[b] = true
+			for _, s := range b.Succs {
+				grow(s)
+			}
+		}
+		for b := range ld.blocks {
+			for _, s := range b.Succs {
+				if !ld.blocks[s] && b != ld.header {
+					grow(s)
+				}
+			}
+		}
+		// this iteration's own stores into maps: (map path, key value)
+		type mstore struct {
+			m   string
+			key ssa.Value
+			b   *ssa.BasicBlock
+		}
+		var own []mstore
+		for b := range ld.blocks {
+			for _, ins := range b.Instrs {
+				if mu, ok := ins.(*ssa.MapUpdate); ok {
+					own = append(own, mstore{pathOf(mu.Map, 0), mu.Key, b})
+				}
+			}
+		}
+		var pure func(v ssa.Value, at *ssa.BasicBlock, seen map[ssa.Value]bool) string
+		pure = func(v ssa.Value, at *ssa.BasicBlock, seen map[ssa.Value]bool) string {
+			if v == nil || seen[v] {
+				return ""
+			}
+			seen[v] = true
+			switch x := v.(type) {
+			case *ssa.Const, *ssa.Parameter, *ssa.Function, *ssa.Builtin:
+				return ""
+			case *ssa.Extract:
+				if x.Tuple == ssa.Value(ld.next) {
+					return ""
+				}
+				return pure(x.Tuple, at, seen)
+			case *ssa.Lookup:
+				// a read of a map: fine when it reads what this iteration stored, or schema data
+				mp := pathOf(x.X, 0)
+				if strings.Contains(mp, "param:NewParams.schema") || strings.Contains(mp, "GetType(") || strings.Contains(mp, "val:") && !strings.Contains(mp, "params") {
+					if w := pure(x.X, at, seen); w != "" {
+						return w
+					}
+					return pure(x.Index, at, seen)
+				}
+				for _, o := range own {
+					if o.m == mp && (o.key == x.Index || pathOf(o.key, 0) == pathOf(x.Index, 0)) && o.b.Dominates(x.Block()) {
+						return pure(x.Index, at, seen)
+					}
+				}
+				return "the entry " + shorten(p.describe(x)) + " (" + p.pos(x.Pos()) + ") as left by the parameters processed before"
+			case *ssa.UnOp:
+				if x.Op == token.MUL {
+					if _, fl, ok := fieldLoad(x); ok {
+						b, _, _ := fieldLoad(x)
+						bt := typeStr(deref(b.Type()))
+						if strings.HasSuffix(bt, "SimpleURL") && fl != "Fields" {
+							return "the parsed parameter " + fl + " (" + p.pos(x.Pos()) + ")"
+						}
+					}
+				}
+				return pure(x.X, at, seen)
+			case *ssa.Alloc:
+				for _, ref := range referrers(x) {
+					if st, ok := ref.(*ssa.Store); ok && st.Addr == ssa.Value(x) {
+						if w := pure(st.Val, at, seen); w != "" {
+							return w
+						}
+					}
+				}
+				return ""
+			case *ssa.Call:
+				for _, a := range x.Common().Args {
+					if w := pure(a, at, seen); w != "" {
+						return w
+					}
+				}
+				if x.Common().IsInvoke() || x.Common().StaticCallee() == nil {
+					return pure(x.Common().Value, at, seen)
+				}
+				return ""
+			case ssa.Instruction:
+				for _, op := range x.Operands(nil) {
+					if *op != nil {
+						if w := pure(*op, at, seen); w != "" {
+							return w
+						}
+					}
+				}
+			}
+			return ""
+		}
+		for b := range region {
+			ret, ok := b.Instrs[len(b.Instrs)-1].(*ssa.Return)
+			if !ok || len(ret.Results) != 2 || isNilConst(ret.Results[1]) {
+				continue
+			}
+			n++
+			why := ""
+			for _, ef := range factsAt(b) {
+				if ef.From == nil || !region[ef.From] {
+					continue
+				}
+				if w := pure(ef.Cond, b, map[ssa.Value]bool{}); w != "" {
+					why = w
+				}
+			}
+			r.decide(why == "", "C08.fields-accepted", "NewParams:reject:"+p.describe(ret), p.pos(ret.Pos()), "rejected only for reasons computed from the type, its names and the schema", "a fields[T] parameter can be rejected depending on "+why+": String() prints fields[T] for every selected type but not the parameter that put it there, so its own output can be refused")
+		}
+	}
+	r.floor("rejecting returns in the field-selection loop of NewParams", n, 2)
 }
